@@ -559,7 +559,16 @@ func (e *erasureCodingPartStore) newPartReader(ctx context.Context, tx database.
 				_ = pw.CloseWithError(fmt.Errorf("insufficient shards in stripe %d", stripeIndex))
 				return
 			}
-			if err := enc.ReconstructData(shards); err != nil {
+			// ReconstructData restores only the data shards and leaves missing
+			// parity shards nil; a parity shard that is being healed needs its
+			// payload as well.
+			reconstruct := enc.ReconstructData
+			for i := e.dataShards; i < e.totalShards; i++ {
+				if healShards[i] && healPipeWriters[i] != nil {
+					reconstruct = enc.Reconstruct
+				}
+			}
+			if err := reconstruct(shards); err != nil {
 				closeHealingWriters(err)
 				_ = pw.CloseWithError(err)
 				return
